@@ -381,6 +381,9 @@ class BaseWorklist(list):
         dst_rack_type : str, optional
             Configuration name of the destination labware
         """
+        if isinstance(volume, numpy.integer):
+            # plain Python arithmetic from here on (numpy integer scalars wrap around silently)
+            volume = int(volume)
         # check & convert arguments
         if not direction in {"left_to_right", "right_to_left"}:
             raise ValueError(f'"direction" must be either "left_to_right" or "right_to_left"')
@@ -603,6 +606,9 @@ class BaseWorklist(list):
         dst_rack_type : str
             Configuration name of the destination labware
         """
+        if isinstance(volume, numpy.integer):
+            # plain Python arithmetic from here on (numpy integer scalars wrap around silently)
+            volume = int(volume)
         if source.virtual_rows is None:
             raise ValueError(
                 f'Reagent distribution only works with Trough sources. "{source.name}" is not a Trough.'
